@@ -2,19 +2,22 @@ From Coq Require Import List Arith Bool.
 Import ListNotations.
 Require Import Balance BalanceRun.
 
-(* physical device of a mount: its DeviceID, or a private one when blank *)
-Definition pdev (m : mnt) : nat := if dev m =? 0 then 1000 + mid m else dev m.
 
 Definition holders (ms : list mnt) (repl : list (nat * nat)) : list mnt :=
   filter (fun m => existsb (fun r => fst r =? mid m) repl) ms.
 
-(* replication of class c over distinct physical devices *)
-Fixpoint dedup_repl (seen : list nat) (ms : list mnt) : nat :=
+(* replication of class c over distinct physical devices; a device mounted several times counts
+   once, with the largest Replication any of its mounts in the class reports *)
+Definition dev_repl (d : nat) (ms : list mnt) : nat :=
+  fold_left Nat.max (map mrepl (filter (fun m => pdev m =? d) ms)) 0.
+Fixpoint dedup_repl (seen : list nat) (all ms : list mnt) : nat :=
   match ms with
   | [] => 0
-  | m :: r => if mem (pdev m) seen then dedup_repl seen r else mrepl m + dedup_repl (pdev m :: seen) r
+  | m :: r => if mem (pdev m) seen then dedup_repl seen all r
+              else dev_repl (pdev m) all + dedup_repl (pdev m :: seen) all r
   end.
-Definition phys_repl (c : nat) (ms : list mnt) : nat := dedup_repl [] (filter (inclass c) ms).
+Definition phys_repl (c : nat) (ms : list mnt) : nat :=
+  let cm := filter (inclass c) ms in dedup_repl [] cm cm.
 
 Definition trashed_devs (ms : list mnt) (chs : list change) : list nat :=
   flat_map (fun ch => match ch with
@@ -43,3 +46,17 @@ Definition tally (cs : list bcase) :=
    length (filter (fun c => negb (shared c)) bad),
    length (filter (fun c => negb (shared c) && negb (multimount c)) bad),
    length (filter (fun c => negb (shared c) && negb (nondefault c)) bad)).
+
+(* the same clause evaluated on a model's own output *)
+Definition t4_of (chs : list change) (c : bcase) : bool :=
+  t4_b {| c_mounts := c_mounts c; c_repl := c_repl c; c_classes := c_classes c; c_rank := c_rank c;
+          c_devrank := c_devrank c; c_changes := chs; c_lost := c_lost c |}.
+Definition run_cur (c : bcase) := fst (balance_block (fun s => nth s (c_rank c) 0) (fun d => nth d (c_devrank c) 0) 100 (c_mounts c) (c_repl c) (c_classes c)).
+Definition run_fix (c : bcase) := fst (balance_block_fixed (fun s => nth s (c_rank c) 0) (fun d => nth d (c_devrank c) 0) 100 (c_mounts c) (c_repl c) (c_classes c)).
+Definition ntrash (l : list change) := length (filter (fun ch => match ch with Trash _ _ => true | _ => false end) l).
+Definition tally2 (cs : list bcase) :=
+  (length cs,
+   length (filter (fun c => negb (t4_of (run_cur c) c)) cs),
+   length (filter (fun c => negb (t4_of (run_fix c) c)) cs),
+   list_sum (map (fun c => ntrash (run_cur c)) cs),
+   list_sum (map (fun c => ntrash (run_fix c)) cs)).
